@@ -1,0 +1,234 @@
+//! Seams for deterministic simulation. Compiled only with `--cfg rce_verif`.
+//!
+//! Every source of nondeterminism the engine touches (threads, the stop flag,
+//! the wall clock, stdout/stderr) is routed through the `Sim` trait when a
+//! simulator has been installed with `install`. With no simulator installed
+//! every shim falls through to `std`, so a `rce_verif` build of the shipped
+//! binary behaves exactly like a normal build.
+#![allow(dead_code, clippy::all, clippy::pedantic, clippy::nursery)]
+
+use std::sync::OnceLock;
+use std::time::Duration;
+
+use crate::board::transposition_table::TTEntry;
+use crate::board::zkey::ZKey;
+use crate::board::Board;
+
+pub use std::sync::Arc;
+
+/// What the simulator is told at a scheduling point.
+#[derive(Clone, Copy, Debug, PartialEq, Eq, Hash)]
+pub enum Label {
+    FlagLoad,
+    FlagStore(bool),
+    Spawn,
+    IsFinished,
+    Join,
+}
+
+/// Where an observer call sits in `search.rs`.
+#[derive(Clone, Copy, Debug, PartialEq, Eq, Hash)]
+pub enum Site {
+    Root,
+    AlphaBetaCutoff,
+    AlphaBetaEnd,
+    AlphaBetaEntry,
+    QuiescenceEntry,
+    RootAfterChild,
+}
+
+pub trait Sim: Sync {
+    /// A point at which the simulator may hand the CPU to another thread.
+    fn yield_point(&self, label: Label);
+    /// Start `f` on a new simulated thread and return its id.
+    fn spawn(&self, f: Box<dyn FnOnce() + Send + 'static>) -> usize;
+    /// Has the simulated thread `tid` returned from its closure?
+    fn thread_finished(&self, tid: usize) -> bool;
+    /// Block the caller until simulated thread `tid` has ended.
+    fn join(&self, tid: usize);
+    /// Virtual clock in nanoseconds (reading it costs virtual time).
+    fn clock_read_ns(&self) -> u64;
+    /// One unit of engine work has been done (`Board::make_move`).
+    fn work_tick(&self);
+    /// A line for stdout. Return `true` if the simulator consumed it.
+    fn out(&self, line: &str) -> bool;
+    /// A line for stderr. Return `true` if the simulator consumed it.
+    fn err(&self, line: &str) -> bool;
+    /// The session position, reported before every line is read.
+    fn session_state(&self, board: &Board);
+    /// A transposition-table insert is about to happen.
+    fn tt_insert(&self, site: Site, key: ZKey, entry: &TTEntry, nodes: u64, budget: Option<u64>, flag: bool);
+    /// An interruption has been observed by the search at `site`.
+    fn abort_observed(&self, site: Site, ply: u8);
+    /// The stop flag was just read as `false`.
+    fn flag_false_seen(&self);
+}
+
+static SIM: OnceLock<&'static dyn Sim> = OnceLock::new();
+
+pub fn install(sim: &'static dyn Sim) {
+    let _ = SIM.set(sim);
+}
+
+#[inline]
+fn sim() -> Option<&'static dyn Sim> {
+    SIM.get().copied()
+}
+
+// ---------------------------------------------------------------- AtomicBool
+
+pub mod atomic {
+    pub use std::sync::atomic::Ordering;
+
+    pub struct AtomicBool(std::sync::atomic::AtomicBool);
+
+    impl AtomicBool {
+        pub const fn new(v: bool) -> Self {
+            Self(std::sync::atomic::AtomicBool::new(v))
+        }
+
+        pub fn load(&self, order: Ordering) -> bool {
+            if let Some(s) = super::sim() {
+                s.yield_point(super::Label::FlagLoad);
+            }
+            let v = self.0.load(order);
+            if !v {
+                if let Some(s) = super::sim() {
+                    s.flag_false_seen();
+                }
+            }
+            v
+        }
+
+        pub fn store(&self, v: bool, order: Ordering) {
+            if let Some(s) = super::sim() {
+                s.yield_point(super::Label::FlagStore(v));
+            }
+            self.0.store(v, order);
+        }
+
+        /// Read without a scheduling point (observers only).
+        pub fn peek(&self) -> bool {
+            self.0.load(Ordering::Relaxed)
+        }
+    }
+}
+
+// -------------------------------------------------------------------- thread
+
+pub mod thread {
+    enum Inner<T> {
+        Real(std::thread::JoinHandle<T>),
+        Sim(usize),
+    }
+
+    pub struct JoinHandle<T>(Inner<T>);
+
+    impl<T> JoinHandle<T> {
+        pub fn is_finished(&self) -> bool {
+            match &self.0 {
+                Inner::Real(h) => h.is_finished(),
+                Inner::Sim(tid) => {
+                    let s = super::sim().expect("simulated handle without simulator");
+                    s.yield_point(super::Label::IsFinished);
+                    s.thread_finished(*tid)
+                }
+            }
+        }
+    }
+
+    impl JoinHandle<()> {
+        pub fn join(self) -> std::thread::Result<()> {
+            match self.0 {
+                Inner::Real(h) => h.join(),
+                Inner::Sim(tid) => {
+                    let s = super::sim().expect("simulated handle without simulator");
+                    s.yield_point(super::Label::Join);
+                    s.join(tid);
+                    Ok(())
+                }
+            }
+        }
+    }
+
+    pub fn spawn<F>(f: F) -> JoinHandle<()>
+    where
+        F: FnOnce() + Send + 'static,
+    {
+        match super::sim() {
+            Some(s) => {
+                let tid = s.spawn(Box::new(f));
+                s.yield_point(super::Label::Spawn);
+                JoinHandle(Inner::Sim(tid))
+            }
+            None => JoinHandle(Inner::Real(std::thread::spawn(f))),
+        }
+    }
+}
+
+// ------------------------------------------------------------------- Instant
+
+#[derive(Clone, Copy, Debug)]
+pub struct Instant {
+    real: std::time::Instant,
+    virt: Option<u64>,
+}
+
+impl Instant {
+    pub fn now() -> Self {
+        Self {
+            real: std::time::Instant::now(),
+            virt: sim().map(Sim::clock_read_ns),
+        }
+    }
+
+    pub fn elapsed(&self) -> Duration {
+        match (self.virt, sim()) {
+            (Some(t0), Some(s)) => Duration::from_nanos(s.clock_read_ns().saturating_sub(t0)),
+            _ => self.real.elapsed(),
+        }
+    }
+}
+
+// ----------------------------------------------------------------- observers
+
+#[inline]
+pub fn work_tick() {
+    if let Some(s) = sim() {
+        s.work_tick();
+    }
+}
+
+/// Returns the line back if nobody consumed it.
+pub fn route_out(line: String) -> Option<impl Into<String>> {
+    match sim() {
+        Some(s) if s.out(&line) => None,
+        _ => Some(line),
+    }
+}
+
+/// Returns the line back if nobody consumed it.
+pub fn route_err(line: String) -> Option<impl Into<String>> {
+    match sim() {
+        Some(s) if s.err(&line) => None,
+        _ => Some(line),
+    }
+}
+
+pub fn session_state(board: &Board) {
+    if let Some(s) = sim() {
+        s.session_state(board);
+    }
+}
+
+pub fn tt_insert(site: Site, key: ZKey, entry: &TTEntry, nodes: u64, budget: Option<u64>, flag: bool) {
+    if let Some(s) = sim() {
+        s.tt_insert(site, key, entry, nodes, budget, flag);
+    }
+}
+
+pub fn abort_observed(site: Site, ply: u8) {
+    if let Some(s) = sim() {
+        s.abort_observed(site, ply);
+    }
+}
